@@ -2,6 +2,7 @@ package core
 
 import (
 	"go/token"
+	"go/types"
 	"os"
 	"path/filepath"
 	"runtime"
@@ -338,5 +339,60 @@ func TestSeqOverlay(t *testing.T) {
 		if strings.Count(got, "\n") != strings.Count(src, "\n") {
 			t.Fatal("line structure changed")
 		}
+	}
+}
+
+// A local struct used only field by field (after its methods were inlined and
+// the goroutine it starts was rehomed) is split into one variable per field.
+func TestFlattenSplitsStruct(t *testing.T) {
+	p := loadFlat(t, "fix.FlatStruct", "fix.FlatStruct$")
+	fn := p.Func("fix", "FlatStruct")
+	var goLit *ssa.Function
+	for _, l := range Closures(fn) {
+		if err := l.SanityCheck(); err != nil {
+			t.Fatal(err)
+		}
+		for _, b := range l.Blocks {
+			for _, in := range b.Instrs {
+				switch x := in.(type) {
+				case *ssa.Alloc:
+					if _, isStruct := x.Type().Underlying().(*types.Pointer).Elem().Underlying().(*types.Struct); isStruct {
+						t.Errorf("%s still has the struct variable %s", l, x)
+					}
+				case *ssa.FieldAddr:
+					t.Errorf("%s still selects a field: %s", l, x)
+				case *ssa.Go:
+					mc, ok := x.Call.Value.(*ssa.MakeClosure)
+					if !ok {
+						t.Fatalf("go statement still calls %s", x.Call.Value)
+					}
+					goLit = mc.Fn.(*ssa.Function)
+				}
+			}
+		}
+	}
+	if goLit == nil {
+		t.Fatal("no go statement")
+	}
+	// the channel the goroutine closes is the one the deferred literal receives from
+	var closed, received *ssa.Alloc
+	for _, l := range Closures(fn) {
+		for _, b := range l.Blocks {
+			for _, in := range b.Instrs {
+				switch x := in.(type) {
+				case *ssa.Defer:
+					if bi, ok := x.Call.Value.(*ssa.Builtin); ok && bi.Name() == "close" && l == goLit {
+						closed = p.CellRoot(x.Call.Args[0].(*ssa.UnOp).X)
+					}
+				case *ssa.UnOp:
+					if x.Op == token.ARROW && l != goLit && l != fn {
+						received = p.CellRoot(x.X.(*ssa.UnOp).X)
+					}
+				}
+			}
+		}
+	}
+	if closed == nil || closed != received {
+		t.Errorf("closed %v, received from %v", closed, received)
 	}
 }
